@@ -80,6 +80,9 @@ def generic_cmp(eng, ts, a, b, st, where):
     if tn in PRIMS:
         lt, eq = prim_lt_eq(tn, a, b)
         return eng.ordering(lt, eq)
+    if ts == '[u8]' and isinstance(a, Sc) and isinstance(b, Sc) and not z3.is_bool(a.t):
+        # the bytes of two ordered string tokens (String::as_bytes below): `impl Ord for str` is `self.as_bytes().cmp(other.as_bytes())`, so the byte order is the token order
+        return eng.ordering(z3.ULT(a.t, b.t), a.t == b.t)
     m = re.match(r'^(?:std::vec::)?Vec<(.+)>$', ts, re.S) or re.match(r'^\[(.+)\]$', ts, re.S)
     if m:
         return slice_cmp(eng, m.group(1), a, b, st, where)
@@ -198,10 +201,23 @@ def slice_cmp(eng, ets, a, b, st, where):
 def m_ord_cmp(eng, m, args, dest_ts, st, where):
     ts = m.group(1)
     tn = elem_name(ts)
-    if not (ts.startswith('&') or ts.startswith('Box<') or ts.startswith('std::boxed::Box<') or tn in PRIMS or tn == 'Vec'):
+    if not (ts.startswith('&') or ts.startswith('Box<') or ts.startswith('std::boxed::Box<') or tn in PRIMS or tn == 'Vec' or re.match(r'^\[[^;]+\]$', ts)):
         return NotImplemented
     a, b = deref(eng, st, args[0]), deref(eng, st, args[1])
     return generic_cmp(eng, ts, a, b, st, where)
+
+
+@model('f32 / f64 comparisons (IEEE 754 via the FP theory of the solver)', r'^<(f32|f64) as (?:PartialOrd|PartialEq)(?:<.*>)?>::(partial_cmp|lt|le|gt|ge|eq|ne)$')
+def m_float_cmp(eng, m, args, dest_ts, st, where):
+    a, b = deref(eng, st, args[0]).t, deref(eng, st, args[1]).t
+    if not (z3.is_fp(a) and z3.is_fp(b)):
+        raise Unsupported('float comparison of non-FP terms')
+    op = m.group(2)
+    if op == 'partial_cmp':
+        dt = eng.ty(dest_ts)
+        nan = OR(z3.fpIsNaN(a), z3.fpIsNaN(b))
+        return ite(nan, mk_variant(dt, 'None'), mk_variant(dt, 'Some', [eng.ordering(z3.fpLT(a, b), z3.fpEQ(a, b))]))
+    return Sc({'lt': z3.fpLT, 'le': z3.fpLEQ, 'gt': z3.fpGT, 'ge': z3.fpGEQ, 'eq': z3.fpEQ, 'ne': z3.fpNEQ}[op](a, b))
 
 
 @model('PartialOrd::partial_cmp (prims)', r'^<(.+) as PartialOrd>::partial_cmp$')
@@ -538,7 +554,7 @@ def it_elems_slots(eng, it, st, where, pc):
     return out
 
 
-@model('Iterator::next', r'^<(?:std::slice::Iter<.+>|std::vec::IntoIter<.+>|std::array::IntoIter<.+>|Flatten<.+>|FlatMap<.+>|Filter<.+>|std::iter::Map<.+>|FilterMap<.+>|std::iter::Flatten<.+>|std::iter::Filter<.+>|std::iter::FlatMap<.+>) as Iterator>::next$')
+@model('Iterator::next', r'^<(?:std::slice::Iter<.+>|std::vec::IntoIter<.+>|std::array::IntoIter<.+>|Zip<.+>|std::iter::Zip<.+>|Flatten<.+>|FlatMap<.+>|Filter<.+>|std::iter::Map<.+>|FilterMap<.+>|std::iter::Flatten<.+>|std::iter::Filter<.+>|std::iter::FlatMap<.+>) as Iterator>::next$')
 def m_iter_next(eng, m, args, dest_ts, st, where):
     r = args[0]
     it = eng.read_ref(st, r)
@@ -597,7 +613,7 @@ def _next_counted(eng, r, it, oty, st, where):
     return simp(res)
 
 
-@model('IntoIterator for iterators', r'^<(?:Flatten<.+>|FlatMap<.+>|Filter<.+>|std::iter::Map<.+>|FilterMap<.+>|std::vec::IntoIter<.+>|std::iter::\w+<.+>|Enumerate<.+>|Chain<.+>|Take<.+>|Skip<.+>|Rev<.+>) as IntoIterator>::into_iter$')
+@model('IntoIterator for iterators', r'^<(?:Flatten<.+>|FlatMap<.+>|Filter<.+>|std::iter::Map<.+>|FilterMap<.+>|std::vec::IntoIter<.+>|std::iter::\w+<.+>|Zip<.+>|Enumerate<.+>|Chain<.+>|Take<.+>|Skip<.+>|Rev<.+>) as IntoIterator>::into_iter$')
 def m_iter_identity(eng, m, args, dest_ts, st, where):
     return deref(eng, st, args[0])
 
@@ -706,6 +722,23 @@ def m_try_branch(eng, m, args, dest_ts, st, where):
     brk = mk_variant(cty, 'Break', [mk_variant(resid_ty, 'Err', [payload(r, 'Err')[0]])])
     cont = mk_variant(cty, 'Continue', [payload(r, 'Ok')[0]])
     return ite(is_variant(r, 'Ok'), cont, brk)
+
+
+@model('Try::branch (Option)', r'^<(?:std::option::)?Option<(.+)> as Try>::branch$')
+def m_try_branch_opt(eng, m, args, dest_ts, st, where):
+    # impl Try for Option<T>: Some(v) => ControlFlow::Continue(v), None => ControlFlow::Break(None)
+    r = deref(eng, st, args[0])
+    cty = eng.ty(dest_ts)
+    resid_ty = cty.variants[cty.vindex('Break')][1][0]
+    brk = mk_variant(cty, 'Break', [mk_variant(resid_ty, 'None')])
+    cont = mk_variant(cty, 'Continue', [payload(r, 'Some')[0]])
+    return ite(is_variant(r, 'Some'), cont, brk)
+
+
+@model('FromResidual::from_residual (Option)', r'^<(?:std::option::)?Option<(.+)> as FromResidual<(?:std::option::)?Option<Infallible>>>::from_residual$')
+def m_from_residual_opt(eng, m, args, dest_ts, st, where):
+    # impl FromResidual<Option<Infallible>> for Option<T>: None => None
+    return mk_variant(eng.ty(dest_ts), 'None')
 
 
 @model('FromResidual::from_residual', r'^<Result<(.+)> as FromResidual<Result<Infallible, (.+)>>>::from_residual$')
